@@ -31,7 +31,7 @@ func init() {
 		Run: run,
 		Floors: func(t string) map[string]int64 {
 			m := map[string]int64{"cfg.overlapping": 200, "cfg.b_inside_a": 100, "cfg.b_inside_hole_of_a": 100, "cfg.a_inside_b": 100, "cfg.disjoint_bbox_overlap": 100,
-				"cfg.bbox_disjoint_both_axes": 100, "cfg.bbox_disjoint_one_axis": 100, "points.judged": 100000, "area.identities_checked": 1000, "area.method_compared": 1000, "result.empty_correct": 500, "kind.nested": 50}
+				"cfg.bbox_disjoint_both_axes": 100, "cfg.bbox_disjoint_one_axis": 100, "cfg.box_corners_inside_concave": 100, "points.judged": 100000, "area.identities_checked": 1000, "area.method_compared": 1000, "result.empty_correct": 500, "kind.nested": 50}
 			for _, a := range []string{"Polygon", "MultiPolygon", "*Bounds"} {
 				for _, b := range []string{"Polygon", "MultiPolygon", "*Bounds"} {
 					m["pair."+a+"x"+b] = 40
@@ -127,8 +127,14 @@ func GenOperand(r *gen.R, cx, cy, rad float64, kind string, maxVerts int) Operan
 			o.Polys = append(o.Polys, sh.Poly)
 		}
 	}
+	o.finish()
+	return o
+}
+
+// finish derives the exact rings and the exact even-odd area (shells minus holes; ring 0 of
+// each member is the shell) from Polys.
+func (o *Operand) finish() {
 	o.Rings = gen.ERings(o.Polys)
-	// exact even-odd area: shells minus holes (ring 0 of each member is the shell)
 	o.Area = new(big.Rat)
 	for _, pg := range o.Polys {
 		for i, ring := range pg {
@@ -141,7 +147,6 @@ func GenOperand(r *gen.R, cx, cy, rad float64, kind string, maxVerts int) Operan
 		}
 	}
 	o.Area.Quo(o.Area, big.NewRat(2, 1))
-	return o
 }
 
 type presentation struct {
@@ -299,7 +304,7 @@ func generalPosition(a, b *Operand, delta float64) bool {
 }
 
 var kinds = []string{"star", "star", "starholes", "starholes", "comb", "stair", "multi", "nested", "box", "box"}
-var configs = []string{"overlapping", "overlapping", "overlapping", "b_inside_a", "b_inside_hole_of_a", "a_inside_b", "disjoint_bbox_overlap", "bbox_disjoint_both_axes", "bbox_disjoint_one_axis"}
+var configs = []string{"overlapping", "overlapping", "overlapping", "box_corners_inside_concave", "b_inside_a", "b_inside_hole_of_a", "a_inside_b", "disjoint_bbox_overlap", "bbox_disjoint_both_axes", "bbox_disjoint_one_axis"}
 
 func run(c *core.Ctx, idx int) {
 	r := c.R
@@ -319,6 +324,48 @@ func run(c *core.Ctx, idx int) {
 		d := (ra + rb) * r.Range(0.1, 0.7)
 		th := r.Range(0, 2*math.Pi)
 		b = GenOperand(r, ox+d*math.Cos(th), oy+d*math.Sin(th), rb, kinds[r.Intn(len(kinds))], maxVerts)
+	case "box_corners_inside_concave":
+		// an axis-aligned box whose four corners lie inside A while a notch, a long thin hole or the
+		// channel between two members of A passes through the box and no vertex of A lies in it
+		var polys []geom.Polygon
+		var bx geom.Bounds
+		w := ra
+		switch r.Intn(3) {
+		case 0: // two teeth of an upright comb
+			teeth := r.IntRange(2, 5)
+			tw := 2 * w / float64(2*teeth-1)
+			ring := geom.Path{{X: ox - w, Y: oy - w}, {X: ox + w, Y: oy - w}}
+			base := oy - w + 0.4*w
+			for i := teeth - 1; i >= 0; i-- {
+				xl := ox - w + float64(2*i)*tw
+				top := oy + w*r.Range(0.5, 1)
+				ring = append(ring, geom.Point{X: xl + tw, Y: base + r.Range(0, 0.02)*w}, geom.Point{X: xl + tw, Y: top}, geom.Point{X: xl, Y: top}, geom.Point{X: xl, Y: base + r.Range(0, 0.02)*w})
+			}
+			ring = append(ring[:2], ring[3:len(ring)-1]...) // the outermost base corners coincide with the frame
+			polys = []geom.Polygon{{gen.RespellRandom(r, ring)}}
+			i := r.Intn(teeth - 1)
+			bx = geom.Bounds{Min: geom.Point{X: ox - w + float64(2*i)*tw + tw*r.Range(0.2, 0.8), Y: base + 0.1*w}, Max: geom.Point{X: ox - w + float64(2*i+2)*tw + tw*r.Range(0.2, 0.8), Y: oy + w*0.4}}
+		case 1: // a long thin hole
+			shell := geom.Path{{X: ox - w, Y: oy - w}, {X: ox + w, Y: oy - w}, {X: ox + w, Y: oy + w}, {X: ox - w, Y: oy + w}}
+			hy := oy + w*r.Range(-0.3, 0.3)
+			hole := geom.Path{{X: ox - 0.9*w, Y: hy - 0.03*w}, {X: ox + 0.9*w, Y: hy - 0.02*w}, {X: ox + 0.9*w, Y: hy + 0.03*w}, {X: ox - 0.9*w, Y: hy + 0.02*w}}
+			polys = []geom.Polygon{{gen.RespellRandom(r, shell), gen.RespellRandom(r, hole)}}
+			bx = geom.Bounds{Min: geom.Point{X: ox - w*r.Range(0.2, 0.7), Y: hy - w*r.Range(0.2, 0.5)}, Max: geom.Point{X: ox + w*r.Range(0.2, 0.7), Y: hy + w*r.Range(0.2, 0.5)}}
+		default: // the channel between two members
+			g := w * r.Range(0.02, 0.1)
+			left := geom.Path{{X: ox - w, Y: oy - w}, {X: ox - g, Y: oy - w}, {X: ox - g*0.5, Y: oy + w}, {X: ox - w, Y: oy + w}}
+			right := geom.Path{{X: ox + g, Y: oy - w}, {X: ox + w, Y: oy - w}, {X: ox + w, Y: oy + w}, {X: ox + g*1.5, Y: oy + w}}
+			polys = []geom.Polygon{{gen.RespellRandom(r, left)}, {gen.RespellRandom(r, right)}}
+			bx = geom.Bounds{Min: geom.Point{X: ox - w*r.Range(0.3, 0.8), Y: oy - w*r.Range(0.2, 0.8)}, Max: geom.Point{X: ox + w*r.Range(0.3, 0.8), Y: oy + w*r.Range(0.2, 0.8)}}
+		}
+		a = Operand{Polys: polys, Cx: ox, Cy: oy, Out: w * 1.5, Kind: "concave"}
+		a.finish()
+		bring := geom.Path{{X: bx.Min.X, Y: bx.Min.Y}, {X: bx.Max.X, Y: bx.Min.Y}, {X: bx.Max.X, Y: bx.Max.Y}, {X: bx.Min.X, Y: bx.Max.Y}}
+		b = Operand{Polys: []geom.Polygon{{gen.RespellRandom(r, bring)}}, Box: &bx, Cx: (bx.Min.X + bx.Max.X) / 2, Cy: (bx.Min.Y + bx.Max.Y) / 2, Out: math.Hypot(bx.Max.X-bx.Min.X, bx.Max.Y-bx.Min.Y), Kind: "box"}
+		b.finish()
+		if r.Bool() {
+			a, b = b, a
+		}
 	case "b_inside_a", "a_inside_b":
 		outer := GenOperand(r, ox, oy, ra, []string{"star", "box", "star"}[r.Intn(3)], maxVerts)
 		rb := outer.In * r.Range(0.3, 0.9)
